@@ -79,7 +79,7 @@ Theorem c15_float_show_look : forall b rest, finite b -> stops_float rest ->
 Proof. exact RoundTripInst.rt_float_show_look. Qed.
 Print Assumptions c15_float_show_look.
 
-(* sequences of Ints, Floats and Strings written with %$, a signed decimal directive or a plain "%.pf"
+(* sequences of Ints, Floats and Strings written with %$, a signed decimal or unsigned directive, or "%[+][ ][0][width][.p]f" read by "%lf"
    (wf_seq lists the side conditions item by item), separated by literal
    text, at any start position, String sink and source; value_close = Ints and Strings equal, Floats
    within the printed precision *)
